@@ -2,6 +2,7 @@ package transform
 
 import (
 	"fmt"
+	"sort"
 	"strings"
 
 	"github.com/trajectoryjp/spatial_id_go/v4/common"
@@ -86,6 +87,8 @@ func GetExtendedSpatialIdsWithinRadiusOfLine(startPoint *object.Point, endPoint 
 
 	// Determine the number of layers around the spatialID to search.
 	// All SpatialIds are virtually the same size, so use the first to measure
+	// idsOnLine comes out of a map in random order; sort it so that the same voxel is measured on every call
+	sort.Strings(idsOnLine)
 	hLayers, vLayers, error := FitClearanceAroundExtendedSpatialID(idsOnLine[0], radius)
 	if error != nil {
 		return nil, error
